@@ -349,3 +349,7 @@ m('c17-loader-not-in-context', 'C17', PC, "            self._loader = loader\n  
 m('c17-continue-without-persister-proceeds', 'C17', PC, "            raise communications.TaskRejected('Cannot continue process, no persister')", "            return None", 'fire', '_continue')
 m('c17-launch-body-persist-dropped', 'C17', PC, "            PROCESS_CLASS_KEY: loader.identify_object(process_class),\n            PERSIST_KEY: persist,\n            NOWAIT_KEY: nowait,", "            PROCESS_CLASS_KEY: loader.identify_object(process_class),\n            PERSIST_KEY: False,\n            NOWAIT_KEY: nowait,", 'fire', 'create_launch_body')
 m('c17-silent-log-message', 'C17', PC, "            LOGGER.warning('rejecting task: cannot continue process<%d> because no persister is available', pid)", "            LOGGER.warning('rejecting continue task for process<%s>: no persister', pid)", 'silent')
+
+# ------------------------------------------------------------------ regressions of fix: commits not yet covered above
+m('c04-on-kill-unguarded-again', 'C04', P, "        if self.future().done():\n            self._future = persistence.SavableFuture(loop=self._loop)\n        self.future().set_exception(exceptions.KilledError(msg_txt))", "        self.future().set_exception(exceptions.KilledError(msg_txt))", 'fire', 'on_kill', 'reverts the G11 fix')
+m('c02-future-replaced-while-pending', 'C02', P, "        if self.future().done():\n            self._future = persistence.SavableFuture(loop=self._loop)\n        self.future().set_exception(exceptions.KilledError(msg_txt))", "        self._future = persistence.SavableFuture(loop=self._loop)\n        self.future().set_exception(exceptions.KilledError(msg_txt))", 'fire', 'on_kill', 'waiters on the old future are never released')
